@@ -227,8 +227,19 @@ fn state_diff(a: &ForestState, b: &ForestState, xot: &Xot) -> String {
     }
     for (n, t) in &b.nodes {
         if !a.nodes.contains_key(n) {
-            // a new, reachable node: only report when some old node can see it
-            if t.parent.is_some() {
+            // a new node: only report when some old node can see it, i.e. when the tree it sits in has an old
+            // root (nodes of a half-built tree that a refused parse leaves behind in the arena are reachable
+            // from no handle the caller has; only the read-only hook sees them)
+            let mut root = *n;
+            let mut steps = 0;
+            while let Some(p) = b.nodes.get(&root).and_then(|r| r.parent) {
+                root = p;
+                steps += 1;
+                if steps > b.nodes.len() {
+                    break;
+                }
+            }
+            if t.parent.is_some() && a.nodes.contains_key(&root) {
                 return format!("a new node {} is attached to the forest after the refused call", t.value);
             }
         }
@@ -286,7 +297,11 @@ impl Manip {
         let legal = guard(|| f.precondition(op)).unwrap_or(false);
         hist.ops.push(guard(|| describe_op(&f.xot, op)).unwrap_or_else(|_| opname.to_string()));
         let before = if self.0 == Which::C06 { forest_state(&f.xot).ok() } else { None };
+        let live_before_parse = if matches!(op, Op::Parse(_)) { Some(f.xot.verif_live_nodes()) } else { None };
         let outcome = exec(&mut f.xot, op);
+        if let (Some(b), Outcome::Err(_)) = (&live_before_parse, &outcome) {
+            f.note_parse_garbage(b);
+        }
         ctx.count(&format!("call.{}.{}", opname, outcome.class()));
         ctx.count(&format!("cell.{}.{}", opname, c.split('/').next().unwrap_or("")));
         if legal {
@@ -338,6 +353,10 @@ impl Manip {
                     let harness = e.starts_with("harness:") || e.contains("unknown to the model");
                     if harness {
                         ctx.count("harness_model_gap");
+                        if std::env::var("XVM_DEBUG_GAP").is_ok() {
+                            eprintln!("GAP {} :: {}", e, detail(f, hist, &e).to_string().chars().take(3000).collect::<String>());
+                        }
+                        ctx.count(&format!("harness_model_gap.{}.{}", opname, e.chars().take(60).collect::<String>().replace('.', "_")));
                         return false;
                     }
                     ctx.violation(
